@@ -25,7 +25,7 @@ def second_words(c, prefixes, words):
 def generate(tier, seed, info):
     c = common.ctx(seed, 7)
     r = c.rnd
-    nreg = 1 if tier == "quick" else 3
+    nreg = 2 if tier == "quick" else 4
     lines = forms.gen_first_words(c, range(65536), regfiles=nreg)
     step = 7 if tier == "quick" else 1
     lines += second_words(c, [0x0100, 0x0140, 0x01f0], range(0, 65536, step))
@@ -34,7 +34,9 @@ def generate(tier, seed, info):
     lines += second_words(c, pre, range(0, 65536, 61 if tier == "quick" else 5))
     n = 8000 if tier == "quick" else 100000
     lines += forms.gen_unimpl(c, n) + forms.gen_mov(c, n) + forms.gen_stc(c, n) + forms.gen_bit(c, n) + forms.gen_calls(c, n)
+    # one valid instruction executed as another valid one may differ for a few flag values only: every condition x every CCR
+    lines += forms.gen_bcc(c, True)
     info["cases"] = len(lines); info["exhaustive"] = True
     info["exhaustive_part"] = "all 65536 first instruction words" + ("; all second words of 0100/0140/01F0" if tier != "quick" else "")
     return common.shard(common.renumber(lines))
-RULE = RULE % 1
+RULE = RULE % 2
